@@ -39,8 +39,8 @@ FILE = {"absent": "out.json", "existing": "exist.json", "dir": "adir", "symlink-
         "symlink-abs-to-file": "abs_lnk", "symlink-to-dir": "dir_lnk", "existing-dotdot": os.path.join("sub", "..", "exist.json"),
         "absent-in-subdir": os.path.join("sub", "new.json"),
         "absent-trailing-slash": "fresh.json/", "symlink-loop": "loop_lnk", "dangling-into-missing-dir": "dang2",
-        "absent-no-extension": "paper"}
-PRECIOUS = ("exist.json", "keep.json", "lnk", "adir", "rel_lnk", "up_lnk", "abs_lnk", "dir_lnk", "paper.json", "paper.txt")
+        "absent-no-extension": "paper", "existing-empty": "empty.json"}
+PRECIOUS = ("exist.json", "keep.json", "lnk", "adir", "rel_lnk", "up_lnk", "abs_lnk", "dir_lnk", "paper.json", "paper.txt", "empty.json")
 PW = {"none": None, "ascii": "pw", "nfkd-sensitive": "p\u00e4ss\ufb01\uff11\u2126", "blank-padded": "  two  blanks ", "empty": "",
       "json-like": '[ a ] { "k" : [ 1 , 2 ] } \\ "q" ,\n\t: [\n    x\n]',
       "at-existing-file": "@exist.json"}
@@ -119,6 +119,8 @@ def make_dir():
     os.symlink("adir", os.path.join(d, "dir_lnk"))
     os.symlink("loop_lnk", os.path.join(d, "loop_lnk"))
     os.symlink(os.path.join("nodir2", "target.json"), os.path.join(d, "dang2"))
+    with open(os.path.join(d, "empty.json"), "w"):                       # exists, zero bytes
+        pass
     for nm in ("paper.json", "paper.txt", "paper.json.json"):           # neighbours of the suffix-less name "paper"
         with open(os.path.join(d, nm), "w") as f:
             f.write("PRECIOUS NEIGHBOUR %s\n" % nm)
